@@ -83,13 +83,13 @@ func genPlan(t *rapid.T) plan {
 }
 
 type outcome struct {
-	id        int64
-	result    string          // commit | abort | unknown
-	acked     map[int64]bool  // record ids whose promise succeeded
-	all       map[int64]bool  // every record id handed to the client in this txn
-	fromReq   int             // net request index at begin
-	toReq     int             // net request index when the next txn began (or end)
-	commitHandled bool        // an EndTxn(commit=true) of this window was handled by the broker
+	id            int64
+	result        string         // commit | abort | unknown
+	acked         map[int64]bool // record ids whose promise succeeded
+	all           map[int64]bool // every record id handed to the client in this txn
+	fromReq       int            // net request index at begin
+	toReq         int            // net request index when the next txn began (or end)
+	commitHandled bool           // an EndTxn(commit=true) of this window was handled by the broker
 }
 
 func TestEndResultsTruthful(t *testing.T) {
